@@ -21,8 +21,9 @@ Reading of the property used here (DESIGN.md §C09):
     `rollback_refused`;
   - clause 2 in full is still FALSE: `error_is_atomic_witness` (RTP mode, unusable bind address:
     `set_remote_description` stores the description and updates the transceivers, then returns the
-    bind error). Proved: `create_offer_error_is_atomic` IN FULL (all modes, all environments — round-3
-    fix for SDES-SRTP), `error_is_atomic_partial` under the named hypothesis `EnvOk` (socket binds succeed,
+    bind error). Proved: `create_offer_error_is_atomic_partial` (all modes, both `bindFails` environments, but
+    ONLY when every further per-section socket can be bound; witness of the rest:
+    `create_offer_error_after_mid_assignment_witness`), `error_is_atomic_partial` under the named hypothesis `EnvOk` (socket binds succeed,
     or WebRTC mode — corollary `error_is_atomic_webrtc`), `error_is_atomic_signaling_checks` for every
     error the model raises outside the socket layer. SDES-SRTP `set_remote_description` now starts its
     direct transport before anything is recorded (example below); it is still covered by `EnvOk` only,
@@ -545,13 +546,29 @@ example : (step pcRtpNoBind (.setRemote offerA)).2 = .err .internal ∧
     (step pcRtpNoBind (.setRemote offerA)).1.sig = pcRtpNoBind.sig ∧
     (step pcRtpNoBind (.setRemote offerA)).1.rem ≠ pcRtpNoBind.rem := by decide
 
-/-- **create_offer_error_is_atomic** (FULL — every connection state, transport mode and environment): a
-rejected `create_offer` returns the connection exactly as it was. Since the round-2 (RTP) and round-3
-(SDES-SRTP) fixes the direct modes obtain their socket before any mid is assigned. -/
-theorem create_offer_error_is_atomic (pc : Pc) (e : Err) (h : (step pc .createOffer).2 = .err e) :
+/-- **create_offer_error_is_atomic_partial** — every connection state, transport mode and `bindFails`
+environment, PROVIDED every further socket can be bound (`createOffer = createOfferEnv false`, the hidden
+hypothesis of this theorem): a rejected `create_offer` returns the connection exactly as it was. Since the
+round-2 (RTP) and round-3 (SDES-SRTP) fixes the direct modes obtain their FIRST socket before any mid is
+assigned. The full statement is false: `create_offer_error_after_mid_assignment_witness`. -/
+theorem create_offer_error_is_atomic_partial (pc : Pc) (e : Err) (h : (step pc .createOffer).2 = .err e) :
     (step pc .createOffer).1 = pc := by
   simp only [step] at h ⊢
   rw [createOffer_err_atomic pc e h]
+
+def pcRtpTwo : Pc := addTransceiver (addTransceiver (Pc.new .rtp) .audio .sendrecv) .video .sendrecv
+
+/-- **create_offer_error_after_mid_assignment_witness** — the atomicity clause is FALSE for `create_offer` of
+the current code: direct mode, offer not bundled (LegacySip), the first socket binds, the port range is
+exhausted for the second m-line (`createOfferEnv true`): the call returns the bind error AFTER both
+transceivers got their mids and the mid counter moved. Reproduced on the implementation by hand
+(`vh c09 --replay 'r#/a0,v0/co'`, also `s#`; known finding `atom:create_offer:S:*:section-socket-bind`); the
+tiers do not run this environment (it needs exactly one free port on a shared host). -/
+theorem create_offer_error_after_mid_assignment_witness :
+    (createOfferEnv true pcRtpTwo).2 = .err .internal ∧
+    (createOfferEnv true pcRtpTwo).1.trxs ≠ pcRtpTwo.trxs ∧
+    (createOfferEnv true pcRtpTwo).1.nextMid ≠ pcRtpTwo.nextMid ∧
+    createOfferEnv false pcRtpTwo = ((createOfferEnv true pcRtpTwo).1, .ok) := by decide
 
 /-- SDES-SRTP, unusable bind address (since the round-3 fixes): `create_offer` and a first
 `set_remote_description` fail before anything is recorded -/
